@@ -116,6 +116,8 @@ func linkReferences(scope schema.Scope) (err error) {
 		}
 	}()
 	scope.ApplySelf()
+	// Accessing the root object panics if its ID does not match its key.
+	_ = scope.RootObject()
 	if err := validateDefaults(scope); err != nil {
 		return err
 	}
